@@ -22,22 +22,27 @@ for p in mutants/*.patch; do
   n=$(basename $p .patch)
   case "$n" in *"$FILTER"*) ;; *) continue;; esac
   id=$(echo ${n%%-*} | tr c C)
-  echo "mutants/$n $(realpath $p) $id" >> $JOBS
+  echo "mutants/$n $(realpath $p) $id 1" >> $JOBS
 done
 for d in seeded/C*/; do
   n=$(basename $d)
   case "$n" in *"$FILTER"*) ;; *) continue;; esac
   [ -f $d/patch.diff ] || continue
-  echo "seeded/$n $(realpath $d/patch.diff) ${n%%-*}" >> $JOBS
+  # meta.json may name another check (selftest_check: the change breaks a neighbouring property
+  # rather than the one it was written for) or carry a verdict "not detected: outside ..." (the
+  # change was judged not to break the property; the check is expected to exit 0 then).
+  chk=$(python3 -c "import json,sys; m=json.load(open('$d/meta.json')); print(m.get('selftest_check') or '${n%%-*}')" 2>/dev/null || echo ${n%%-*})
+  exp=1; grep -q '"verdict": "not detected: outside' $d/meta.json 2>/dev/null && exp=0
+  echo "seeded/$n $(realpath $d/patch.diff) $chk $exp" >> $JOBS
 done
 if [ -z "$FILTER" ]; then
-  for i in $(seq -w 1 20); do echo "unchanged - C$i" >> $JOBS; done
+  for i in $(seq -w 1 20); do echo "unchanged - C$i 0" >> $JOBS; done
 fi
 lane() { # lane number
   local L=$1 S=$T/repo-$1 k=0
   [ -d $S ] || git -C /repo worktree add -q --detach $S HEAD || exit 2
   : > $T/res-$L.txt
-  while read -r name patch chk; do
+  while read -r name patch chk exp; do
     k=$((k+1))
     [ $(( (k-1) % LANES )) -eq $((L-1)) ] || continue
     ( cd $S && git checkout -q -- . && git clean -qfd )
@@ -47,7 +52,7 @@ lane() { # lane number
     VLAB_REPO=$S VLAB_TARGET=$T/target-$L ./check $chk quick > $T/out-$L.txt 2>&1; rc=$?
     ( cd $S && git checkout -q -- . && git clean -qfd )
     kinds=$(grep -oE "kind=[^ ]+" $T/out-$L.txt | sort | uniq -c | sort -rn | head -3 | awk '{print $2}' | tr '\n' ' ')
-    echo "$name|$chk|$rc|$kinds" >> $T/res-$L.txt
+    echo "$name|$chk|$rc|$kinds|$exp" >> $T/res-$L.txt
     echo "$name -> $chk rc=$rc $kinds"
   done < $JOBS
   git -C /repo worktree remove --force $S
@@ -62,13 +67,13 @@ fail=0
   echo
   echo "| change | check | exit | violation kinds (top 3) |"
   echo "|--------|-------|------|-------------------------|"
-  cat $T/res-*.txt | grep -v "^unchanged" | sort | while IFS='|' read -r name chk rc kinds; do echo "| $name | $chk | $rc | $kinds |"; done
+  cat $T/res-*.txt | grep -v "^unchanged" | sort | while IFS='|' read -r name chk rc kinds exp; do [ "$exp" = 0 ] && kinds="(judged outside the property, see seeded/README.md: exit 0 expected)"; echo "| $name | $chk | $rc | $kinds |"; done
   echo
   echo "Unchanged copy (must exit 0):"
   echo
   cat $T/res-*.txt | grep "^unchanged" | sort -t'|' -k2 | while IFS='|' read -r name chk rc kinds; do echo "- $chk quick: exit $rc"; done
 } > $OUT
-if cat $T/res-*.txt | grep -v "^unchanged" | awk -F'|' '$3 != 1' | grep -q .; then fail=1; fi
+if cat $T/res-*.txt | grep -v "^unchanged" | awk -F'|' '$3 != $5' | grep -q .; then fail=1; fi
 if cat $T/res-*.txt | grep "^unchanged" | awk -F'|' '$3 != 0' | grep -q .; then fail=1; fi
 rm -rf $T
 git -C /repo worktree prune
